@@ -396,6 +396,8 @@ class ProgGen:
         if k == "passc":
             return [Node(casing(r, "PASS"))]
         if k == "rem":
+            if r.random() < 0.15:
+                return [Node(casing(r, "REM"))]          # a comment without text
             return [Node(casing(r, "REM") + " " + (rtext(r, r.randint(1, 8)).strip() or "c"))]
         if k == "legacy":
             return [Node(r.choice(["REPEAT", "repeat", "FOR"]) + " " + str(r.randint(0, 9)))]
